@@ -188,6 +188,93 @@ def per_track(chk: core.Check, n_lists: int):
     chk.sample({"tracks": 3, "nesting_counts": [[2, 0, 1]], "pivot_form": "array"})
 
 
+def dtype_and_isolation(chk: core.Check, n_lists: int):
+    """(a) parameter columns stored with an integer dtype (tracks on the reference point: dr = 0, integer-valued dz ...) with a
+    common NON-integer pivot given as tuple / vector object: every track = the single-track object (which converts to float);
+    (b) isolation: a track with NaN parameters (failed fit) in the array does not change the result of any other track."""
+    import awkward as ak
+    import pybes3
+    import vector
+    rng = np.random.default_rng(chk.seed + 707)
+    for it in range(n_lists):
+        n = int(rng.choice([1, 2, 3, 6]))
+        h = hc.gen(rng, n, far=True)
+        depth = int(rng.choice([1, 2, 2, 3]))
+        lv = nest_counts(rng, n, depth)
+        # ---- (a) integer-typed columns
+        int_cols = [c for c in ("dr", "dz") if rng.random() < 0.7] or ["dr"]
+        hi = dict(h)
+        for c in int_cols:
+            hi[c] = np.rint(h[c] * rng.choice([0, 1, 3])).astype(np.int64 if rng.random() < 0.6 else np.int32)
+        piv = tuple(float(x) for x in (rng.uniform(-5, 5, 3) + 0.123))
+        new = tuple(float(x) for x in (rng.uniform(-30, 30, 3) + 0.377))
+        how = rng.choice(["tuple", "vector"])
+        pv = piv if how == "tuple" else vector.obj(x=piv[0], y=piv[1], z=piv[2])
+        desc = {"tracks": {k: np.asarray(hi[k]).tolist() for k in ("dr", "phi0", "kappa", "dz", "tanl")}, "integer_typed_columns": {c: str(hi[c].dtype) for c in int_cols},
+                "pivot": piv, "pivot_form": str(how), "new_pivot": new, "nesting_counts": lv}
+        try:
+            arr = pybes3.helix_awk(dr=build(hi["dr"], lv), phi0=build(hi["phi0"], lv), kappa=build(hi["kappa"], lv), dz=build(hi["dz"], lv), tanl=build(hi["tanl"], lv), pivot=pv)
+            res = arr.change_pivot(new if how == "tuple" else vector.obj(x=new[0], y=new[1], z=new[2]))
+            got = {k: ak.to_numpy(ak.flatten(res[k], axis=None)).astype(float) for k in ("dr", "phi0", "dz")}
+            gp = [ak.to_numpy(ak.flatten(arr.pivot[c], axis=None)).astype(float) for c in "xyz"]
+            pos = [ak.to_numpy(ak.flatten(arr.position[c], axis=None)).astype(float) for c in "xyz"]
+            rp = [ak.to_numpy(ak.flatten(res.pivot[c], axis=None)).astype(float) for c in "xyz"]
+        except Exception as ex:
+            chk.failing_input("helix_awk / change_pivot on integer-typed parameter columns raised", desc, f"{type(ex).__name__}: {ex}", "per-track results", "every array layout and dtype holding the tracks gives the single-track result")
+            return
+        chk.count(1, key=f"int-{it}")
+        chk.hist("dtype_case", "+".join(int_cols))
+        hreg = dict(hi, piv=np.array([piv] * n), new=np.array([new] * n), dr=np.asarray(hi["dr"], dtype=float))
+        reg = hc.regular_mask(hreg)
+        for i in range(n):
+            o = pybes3.helix_obj(float(hi["dr"][i]), hi["phi0"][i], hi["kappa"][i], float(hi["dz"][i]), hi["tanl"][i], pivot=piv)
+            o2 = o.change_pivot(new)
+            sc = 1 + abs(hc.rho(hi["kappa"][i])) + 40 + abs(float(hi["dr"][i]))
+            ok = all(gp[c][i] == piv[c] for c in range(3)) and all(rp[c][i] == new[c] for c in range(3))
+            ok = ok and hc.close(pos[0][i], o.position.x) and hc.close(pos[1][i], o.position.y) and hc.close(pos[2][i], o.position.z)
+            if reg[i]:
+                ok = ok and hc.close(got["dr"][i], o2.dr, atol=1e-9 * sc) and hc.circ_close(got["phi0"][i], o2.phi0, 1e-9) and hc.close(got["dz"][i], o2.dz, atol=1e-9 * sc * (1 + abs(hi["tanl"][i])))
+            if not ok:
+                chk.failing_input("track of a helix array with integer-typed columns and a common non-integer pivot vs the single-track object", dict(desc, track=i),
+                                  {"pivot": [float(gp[c][i]) for c in range(3)], "position": [float(pos[c][i]) for c in range(3)], "new_pivot": [float(rp[c][i]) for c in range(3)], "dr": float(got["dr"][i]), "phi0": float(got["phi0"][i]), "dz": float(got["dz"][i])},
+                                  {"pivot": list(piv), "position": [o.position.x, o.position.y, o.position.z], "new_pivot": list(new), "dr": o2.dr, "phi0": o2.phi0, "dz": o2.dz},
+                                  "each track gives exactly what the single-track helix object gives for that track alone, whatever dtype the columns have")
+                return
+        # ---- (b) a NaN track does not influence the others
+        if n >= 2:
+            j = int(rng.integers(0, n))
+            hn = {k: (np.array(v, dtype=float, copy=True) if k != "piv" and k != "new" else v.copy()) for k, v in h.items()}
+            bad_field = str(rng.choice(["phi0", "kappa", "dr", "pivot"]))
+            if bad_field == "pivot":
+                hn["piv"][j, 0] = np.nan
+            else:
+                hn[bad_field][j] = np.nan
+            A = rng.normal(size=(n, 5, 5)); E = A @ A.transpose(0, 2, 1) * 1e-4
+            tgt_form = str(rng.choice(["tuple", "array"]))
+            def run(hh, keep):
+                hk = {k: v[keep] for k, v in hh.items()}
+                a = hc.impl_arr(hk, error=E[keep])
+                if tgt_form == "tuple":
+                    r = a.change_pivot(new)
+                else:
+                    r = a.change_pivot(ak.zip({"x": hk["new"][:, 0], "y": hk["new"][:, 1], "z": hk["new"][:, 2]}, with_name="Vector3D"))
+                return np.column_stack([ak.to_numpy(r[k]) for k in ("dr", "phi0", "dz")]), ak.to_numpy(r.error)
+            import warnings
+            with warnings.catch_warnings():
+                warnings.simplefilter("ignore")
+                full, ferr = run(hn, np.arange(n))
+                keep = np.array([i for i in range(n) if i != j])
+                alone, aerr = run(hn, keep)
+            chk.count(1, key=f"nan-{it}")
+            chk.hist("nan_field", bad_field)
+            if not (np.array_equal(full[keep], alone, equal_nan=True) and np.array_equal(ferr[keep], aerr, equal_nan=True)):
+                k = int(np.nonzero(~np.all((full[keep] == alone) | (np.isnan(full[keep]) & np.isnan(alone)), axis=1))[0][0]) if not np.array_equal(full[keep], alone, equal_nan=True) else 0
+                chk.failing_input("tracks of an array that also holds a NaN track vs the same tracks without it",
+                                  {"tracks": {kk: hn[kk].tolist() for kk in ("dr", "phi0", "kappa", "dz", "tanl")}, "pivots": hn["piv"].tolist(), "nan_track": j, "nan_field": bad_field, "new_pivot": new if tgt_form == "tuple" else hn["new"].tolist()},
+                                  full[keep][k].tolist(), alone[k].tolist(), "the result for one track does not depend on the other tracks in the array")
+                return
+
+
 def main(chk: core.Check) -> int:
     thorough = chk.tier == "thorough"
     chk.coverage["rule"] = "evaluations = generated layouts (depth 1-4, empty lists) through _extract_index/flatten vs the Lean model, plus track lists in generated layouts x pivot forms compared per track with helix_obj"
@@ -203,6 +290,8 @@ def main(chk: core.Check) -> int:
         chk.obligation_broken("correspondence", "Nested driver", str(ex))
     try:
         per_track(chk, 1200 if thorough else 150)
+        if not chk.failing:
+            dtype_and_isolation(chk, 600 if thorough else 80)
     except Exception as ex:
         import traceback
         chk.obligation_broken("correspondence", "per-track harness", f"{type(ex).__name__}: {ex}\n{traceback.format_exc()[-1800:]}")
